@@ -395,7 +395,7 @@ def run(ctx, rep):
                         "source keys contain no '.', vectorised items have < 10 sub-items (cache file names <key>.<i>.out)",
                         "the post function needs the return file (raises without it), as every shipped driver's does"]
     ok, out, where = vlib.build_props(ctx, rep, "C18")
-    seqs = directed_sequences() + [gen_sequence(ctx.rng, k) for k in range(200 if ctx.thorough else 22)]
+    seqs = directed_sequences() + [gen_sequence(ctx.rng, k) for k in range(200 if ctx.thorough else 16)]
     results = execute(ctx, seqs, "q")
     terms, known_hit = [], set()
     known = {k["signature"] for k in vlib.load_known() if k["property"] == "C18" and k.get("status") == "known"}
